@@ -45,6 +45,7 @@ K = 30  # options.sec_param default
 PRIMES = [7, 101, 2**31 - 1, 2**61 - 1]
 INTLIKE = [('int', 8), ('int', 16), ('int', 32), ('int', 64), ('fxp', 16, 8), ('fxp', 32, 16)]
 CFGS = [(1, 0), (2, 0), (3, 0), (3, 1), (5, 0), (5, 1), (5, 2)]
+CFGS_BIG = [(7, 3), (7, 2), (8, 3), (9, 4)]
 
 
 def tname(d):
@@ -359,10 +360,10 @@ def impl_view(rec):
 
 
 # ---------------------------------------------------------------------------------------------------
-def make_jobs(ctx, rng, per_pair):
+def make_jobs(ctx, rng, per_pair, cfgs=None):
     jobs = []
     idx = 0
-    for (m, t) in CFGS:
+    for (m, t) in (cfgs or CFGS):
         for no_prss in (False, True):
             signs = [(idx >> i) & 1 for i in range(4)] if idx % 4 else ([1] * 4 if idx % 8 == 0 else [0] * 4)
             if idx % 4 == 1:
@@ -371,7 +372,8 @@ def make_jobs(ctx, rng, per_pair):
                 signs = [0, 1, 0, 1]
             elif idx % 4 == 3:
                 signs = [rng.randrange(2) for _ in range(4)]
-            types = INTLIKE + [('fld', p, s) for p, s in zip(PRIMES, signs)]
+            # fields with q <= m are lifted to extension fields (known finding C06-convert-lifted-field, directed input below)
+            types = INTLIKE + [('fld', p if p > m else 11, s) for p, s in zip(PRIMES, signs)]
             cases = gen_cases(rng, types, per_pair)
             rng.shuffle(cases)
             jobs.append((m, t, no_prss, ctx.seed * 1000 + idx, signs, cases))
@@ -428,7 +430,7 @@ def lifted_finding(ctx):
 def run(ctx):
     rng = ctx.rng
     per_pair = ctx.scale(1, 6)
-    jobs = make_jobs(ctx, rng, per_pair)
+    jobs = make_jobs(ctx, rng, per_pair) + make_jobs(ctx, rng, 1, cfgs=CFGS_BIG[:ctx.scale(1, 4)])
     results = run_jobs(jobs)
     lines, impl, kinds = [], [], []
     for job, res in zip(jobs, results):
@@ -490,7 +492,8 @@ def run(ctx):
 def search(ctx):
     """bigger oracle-only search on the real code"""
     rng = ctx.subrng('search')
-    jobs = make_jobs(ctx, rng, ctx.scale(4, 12))
+    # larger party counts first: the number of PRSS summands comb(m,t) overtakes t+1 quickly (m=7,t=3: 35 vs 4)
+    jobs = make_jobs(ctx, rng, ctx.scale(1, 3), cfgs=CFGS_BIG) + make_jobs(ctx, rng, ctx.scale(4, 12))
     for job, res in zip(jobs, run_jobs(jobs)):
         m, t, no_prss, seed, signs, cases = job
         if res['err'] is not None:
